@@ -328,6 +328,7 @@ PROPS = {
         "units": [
             {"pkg": "./c04", "shards": 8, "shards_thorough": 16, "timeout": 300},
             {"pkg": "./mainpkg", "run": "^TestC04", "shards": 4, "shards_thorough": 8, "timeout": 300},
+            {"pkg": "./c02", "run": "^TestC04", "shards": 2, "shards_thorough": 4, "timeout": 300},
         ],
         "rule": ("rapid-generated routes with 1-40 targets, each fixed weight in {0, k/10000, tiny, >1 up to 10, negative} or dynamic, built by 'route add ... weight' lines and "
                  "0-6 'route weight' commands over services and tag sets. Oracle: float64 reference arithmetic from the statement (tolerance 1e-9 on Target.Weight, sum 1); "
